@@ -14,7 +14,7 @@
 (*   PenaltySymmetric, PenaltyPSD-diagonal (P_jj >= 0)                     *)
 (***************************************************************************)
 EXTENDS Glam, TLC, Json
-CONSTANTS MaxDim, EmitJson, Lambdas
+CONSTANTS MaxDim, EmitJson, Lambdas, Small3D
 
 Axis(id) == CASE id = 1 -> [n |-> 0, t |-> <<0, 1, 2, 3, 5>>]
               [] id = 2 -> [n |-> 1, t |-> <<0, 1, 3, 4, 6, 7>>]
@@ -32,17 +32,23 @@ VARIABLES ph, ax, prob
 vars == <<ph, ax, prob>>
 Init == ph = "start" /\ ax = 0 /\ prob = <<>>
 PickAxis == ph = "start" /\ \E id \in AxisIds : ax' = id /\ ph' = "axis" /\ UNCHANGED prob
-PickProblem ==
+PickAxes ==
     /\ ph = "start"
-    /\ \E nd \in 1 .. MaxDim :
-         \E axes \in [1 .. nd -> AxisIds], pens \in [1 .. nd -> 0 .. 2], lam \in [1 .. nd -> Lambdas], dp \in 1 .. 3, wp \in 1 .. 2, scalar \in BOOLEAN :
-            /\ \A d \in 1 .. nd : pens[d] <= Axis(axes[d]).n
+    /\ \E nd \in 1 .. MaxDim : \E axes \in [1 .. nd -> AxisIds] :
             /\ (nd >= 2 => \A d \in 1 .. nd : Axis(axes[d]).n <= 3 /\ axes[d] # 5)          \* keep the N-d systems small
             /\ (nd = 3 => \A d \in 1 .. nd : axes[d] \in {1, 2, 7, 6})
+            /\ prob' = [axes |-> axes]
+    /\ ph' = "axes" /\ UNCHANGED ax
+PickProblem ==
+    /\ ph = "axes"
+    /\ LET axes == prob.axes  nd == Len(axes) IN
+         \E pens \in [1 .. nd -> 0 .. 2], lam \in [1 .. nd -> Lambdas], dp \in 1 .. 3, wp \in 1 .. 2, scalar \in BOOLEAN :
+            /\ \A d \in 1 .. nd : pens[d] <= Axis(axes[d]).n
             /\ (scalar => \A d \in 1 .. nd : lam[d] = lam[1] /\ pens[d] = pens[1])
+            /\ ((Small3D /\ nd = 3) => scalar)
             /\ prob' = [axes |-> axes, pens |-> pens, lam |-> lam, data |-> dp, weights |-> wp, scalar |-> scalar]
     /\ ph' = "problem" /\ UNCHANGED ax
-Next == PickAxis \/ PickProblem
+Next == PickAxis \/ PickAxes \/ PickProblem
 Spec == Init /\ [][Next]_vars
 
 RatJ(r) == <<r[1], r[2]>>
